@@ -37,7 +37,7 @@ struct Content {
     bool locks = false; bool analogGroupEmpty = false; int valueSet = 0; int gapWord = 10;
     // hooks used by the C12 pattern files
     std::function<uint32_t(int, int, int)> ptFn, anFn; std::vector<GParam> customParams; std::vector<uint32_t> eventTimes; bool haveRateBits = false; uint32_t rateBits = 0; bool haveHeaderRateBits = false; uint32_t headerRateBits = 0;   // header words 11-12 when they are to differ from POINT:RATE
-    int lastOverride = -1; bool blankLabel = false; bool reservedNonZero = false; bool longNames = false; int keyLabel = 0, firstKeyBlock = 0; bool noDataStart = false; int padBlocks = 0; std::string optParams = "std";   // std | minimal (no POINT:DESCRIPTIONS/UNITS, no ANALOG:UNITS/SCALE/OFFSET: what a float file can do without) | rich (ANALOG:DESCRIPTIONS too)
+    int lastOverride = -1; bool blankLabel = false; bool reservedNonZero = false; bool longNames = false; int keyLabel = 0, firstKeyBlock = 0; bool noDataStart = false; int padBlocks = 0; int extraGroups = 0; std::string optParams = "std";   // std | minimal (no POINT:DESCRIPTIONS/UNITS, no ANALOG:UNITS/SCALE/OFFSET: what a float file can do without) | rich (ANALOG:DESCRIPTIONS too)
 };
 struct Layout {
     int zeros = 0; bool zeroPrologue = false; int paramBlock = 2; std::string order = "default"; std::string ids = "dense"; bool lastOffsetZero = false; bool lowerNames = false;
@@ -107,6 +107,7 @@ inline std::vector<GGroup> buildGroups(const Content& c, const Layout& l) {
         if (c.extra == "int0") { E.params.push_back(GParam::ints("ONE", {1}, {42})); E.params.push_back(GParam::floats("FONE", {1}, {f2b(4.25f)})); }
         G.push_back(E);
     }
+    for (int k = 0; k < c.extraGroups; ++k) { GGroup X; X.name = "GRP" + std::to_string(k); X.desc = k % 3 ? "" : "group " + std::to_string(k); X.params.push_back(GParam::ints("N", {}, {k})); if (k % 2) X.params.push_back(GParam::strs("S", 3, {}, {"ab"})); G.push_back(X); }
     if (c.longNames && G.size() >= 3) { G[2].name = std::string(64, 'G'); for (size_t k = 0; k < G[2].params.size(); ++k) G[2].params[k].name = std::string(k % 2 ? 64 : 127, (char)('A' + (k % 26))) ; }
     // ids
     for (size_t i = 0; i < G.size(); ++i) G[i].id = (int)i + 1;
